@@ -10,3 +10,14 @@ import "context"
 func (da *DistributedAllocator) VerifCleanupExpiredFromStore(ctx context.Context, currentEpoch uint64) {
 	da.cleanupExpiredFromStore(ctx, currentEpoch)
 }
+
+// VerifTick runs the body of one epochLoop iteration synchronously, with exactly the
+// locking of epochLoop: the epoch advances under da.mu, the store cleanup runs after
+// the lock has been dropped.
+func (da *DistributedAllocator) VerifTick(ctx context.Context) uint64 {
+	da.mu.Lock()
+	newEpoch := da.epochAllocator.AdvanceEpoch()
+	da.mu.Unlock()
+	da.cleanupExpiredFromStore(ctx, newEpoch)
+	return newEpoch
+}
